@@ -161,3 +161,159 @@ def tree_native(P, ks, a):
     exp = stored.get(n, 'absent') if P['has_key'] == 0 else (n in stored)
     if got != exp:
         fail('compiled tree lookup differs from the sorted-map model', ctx, keys, n, got, exp)
+
+
+class _Jar:
+    """the two calls a persistent object makes on its data manager when it is modified / loaded"""
+
+    def __init__(self):
+        self.registered = []
+
+    def register(self, obj):
+        self.registered.append(obj)
+
+    def setstate(self, obj):
+        raise RuntimeError('no ghosts in this replay')
+
+    def readCurrent(self, obj):
+        pass
+
+
+def _nodes(t):
+    """all nodes of a real tree, root first: interior nodes by descent (public __getstate__), leaves along the chain
+    (a node with one oid-less leaf serialises that leaf inline, so descent alone would miss it)"""
+    out, todo = [], [t]
+    while todo:
+        n = todo.pop()
+        out.append(n)
+        st = n.__getstate__()
+        if st is None:
+            continue
+        for x in st[0][::2]:
+            if hasattr(x, '_firstbucket'):
+                todo.append(x)
+    b, k = getattr(t, '_firstbucket', None), 0
+    while b is not None and k < 1000:
+        out.append(b)
+        b = b._next
+        k += 1
+    return out
+
+
+def tree_set_native(P, ks, a):
+    """replay of an E2 _BTree_set counterexample: the compiled family's BTree / TreeSet loaded with the template
+    (every node a database record with a jar, as after a load), one call through the public API"""
+    import gc
+    from engine import shapes
+    import BTrees.check
+
+    def tup(x):
+        return tuple(tup(i) for i in x) if isinstance(x, (list, tuple)) else x
+    fam, tpl, op = P['family'], tup(P['tpl']), P['op']
+    is_set = P.get('is_set', False)
+    kind = 'TreeSet' if is_set else 'BTree'
+    cl = shapes.classes(fam, 'c')
+    shapes.set_sizes(cl, P.get('L', 2), P.get('I', 2))
+    m = shapes.n_ranks(tpl)
+    keys = [a['k%d' % i] for i in range(m)]
+    vals = [a['w%d' % i] for i in range(m)]
+    ctx = {'harness': 'tree_set_native', 'family': fam, 'op': op}
+    types = (cl['BTree'], cl['Bucket'], cl['TreeSet'], cl['Set'])
+    gc.collect()
+    alive0 = sum(1 for o_ in gc.get_objects() if type(o_) in types)
+    t = shapes.build_loaded(tpl, keys, cl, kind, lambda r: vals[r])
+    stored = sorted(set(shapes.leaf_keys(tpl)))
+    model = {keys[r]: vals[r] for r in stored}
+    before = dict(model)
+    jar = _Jar()
+    nodes = _nodes(t)
+    embedded = tpl[0] == 'T1'
+    if P.get('stored', True):
+        for i, n in enumerate(nodes):
+            if embedded and n is not t:
+                continue
+            n._p_jar = jar
+            n._p_oid = b'replay%02d' % i
+    pre_state = {id(n): n.__getstate__() for n in nodes}
+    n_, v_ = a['n'], a['v']
+    try:
+        if op == 'delete':
+            try:
+                if is_set:
+                    t.remove(n_)
+                else:
+                    del t[n_]
+                ok = True
+            except KeyError:
+                ok = False
+            if ok != (n_ in model):
+                fail('compiled tree delete: KeyError iff the key is absent is violated', ctx, keys, n_)
+            model.pop(n_, None)
+        elif op == 'insert':
+            if is_set:
+                t.insert(n_)
+                model.setdefault(n_, None)
+            else:
+                t.insert(n_, v_)
+                model.setdefault(n_, v_)
+        else:
+            if is_set:
+                t.add(n_)
+                model.setdefault(n_, None)
+            else:
+                t[n_] = v_
+                model[n_] = v_
+    except Exception as e:      # noqa
+        fail('compiled tree %s raised %s on representable data' % (op, type(e).__name__), ctx, keys, n_)
+    # pins first: any later access to a node releases a forgotten pin again
+    for n in nodes:
+        if n._p_state == 2:
+            fail('a node is left pinned (sticky) after %s returned' % op, ctx, keys, n_, type(n).__name__)
+    got = list(t.keys()) if is_set else list(t.items())
+    want = sorted(model) if is_set else sorted(model.items())
+    if fam[0] in 'UQ':
+        pass        # non-negative keys: natural order is the family order
+    if got != want:
+        fail('compiled tree contents differ from the sorted-map model after %s' % op, ctx, got, want)
+    try:
+        t._check()
+        BTrees.check.check(t)
+    except AssertionError as e:
+        fail('the tree is damaged after %s: %s' % (op, e), ctx, keys, n_)
+    now = _nodes(t)
+    for n in now:
+        if n._p_state not in (0, 1, None) and n._p_jar is not None:
+            fail('a node is left pinned (persistence state %r) after %s' % (n._p_state, op), ctx, keys, n_)
+    if P.get('stored', True):
+        for n in now:
+            if id(n) in pre_state and n._p_jar is jar and n.__getstate__() != pre_state[id(n)] and not n._p_changed:
+                fail('a node whose stored state changed was not announced to the data manager', ctx, keys, n_, type(n).__name__)
+        if embedded and before != model and not t._p_changed:
+            fail('the root embedding its only leaf was not announced after a change', ctx, keys, n_)
+    # latent damage: keep using the tree
+    extra = [k for k in range(1, 12) if k not in model][:8]
+    try:
+        for k in extra:
+            if is_set:
+                t.add(k)
+            else:
+                t[k] = 1
+            model[k] = 1
+        list(t.keys())
+        t._check()
+        for k in list(model):
+            if is_set:
+                t.remove(k)
+            else:
+                del t[k]
+        t._check()
+        if len(t) or t.__getstate__() is not None:
+            fail('the tree is not empty after deleting every key', ctx)
+    except (AssertionError, KeyError, SystemError) as e:
+        fail('the tree misbehaves in later use after %s: %s %s' % (op, type(e).__name__, e), ctx, keys, n_)
+    del t, nodes, now, pre_state, n
+    jar.registered.clear()
+    gc.collect()
+    alive1 = sum(1 for o_ in gc.get_objects() if type(o_) in types)
+    if alive1 > alive0:
+        fail('%d nodes of the tree stay alive after it was dropped (reference leak)' % (alive1 - alive0), ctx, keys, n_)
